@@ -75,6 +75,41 @@ func (c *ctx) policy(ops []*bmx.Op) (int, *bluemonday.Policy) {
 	return c.pid, pol
 }
 
+// policyStaged builds a policy in stages and sanitises the probe documents between the stages:
+// a policy is its rule set, so use between builder calls must leave no trace.  The model applies
+// all the ops at once.
+func (c *ctx) policyStaged(stages [][]*bmx.Op, probes []string) (int, *bluemonday.Policy) {
+	var ops []*bmx.Op
+	for _, st := range stages {
+		ops = append(ops, st...)
+	}
+	c.pid++
+	pol := bmx.NewBase(ops)
+	for i, st := range stages {
+		for _, o := range st {
+			o.Apply(pol)
+		}
+		if i+1 < len(stages) {
+			for _, pr := range probes {
+				safeSanitize(pol, []byte(pr))
+			}
+		}
+	}
+	c.useThenExtend++
+	fmt.Fprintf(c.w, "policy %d %s %s\n", c.pid, bmx.EncodeOps(ops), bmx.HexS(pol.VerifDump(bmx.RegexNamer(ops))))
+	return c.pid, pol
+}
+
+// safeHandler calls a css handler and reports a panic as the literal PANIC.
+func safeHandler(h func(string) bool, v string) (res string) {
+	defer func() {
+		if e := recover(); e != nil {
+			res = "PANIC"
+		}
+	}()
+	return b01(h(v))
+}
+
 func sourceNamer(r *regexp.Regexp) string { return fmt.Sprintf("s%x", r.String()) }
 
 // shipped registers one of the shipped constructors.
@@ -205,11 +240,11 @@ func init() {
 			}
 			for k := 0; k < per; k++ {
 				v := g.Value(accepted)
-				ok := h(v)
-				if ok {
+				ok := safeHandler(h, v)
+				if ok == "1" {
 					acceptedN++
 				}
-				fmt.Fprintf(c.w, "hdl %s %s %s\n", bmx.HexS(prop), bmx.HexS(v), b01(ok))
+				fmt.Fprintf(c.w, "hdl %s %s %s\n", bmx.HexS(prop), bmx.HexS(v), ok)
 			}
 		}
 		// systematic placement of every hostile fragment around and inside accepted values: as a
@@ -250,12 +285,22 @@ func init() {
 						}
 					}
 					for _, v := range vs {
-						ok := h(v)
-						if ok {
+						ok := safeHandler(h, v)
+						if ok == "1" {
 							acceptedN++
 						}
-						fmt.Fprintf(c.w, "hdl %s %s %s\n", bmx.HexS(prop), bmx.HexS(v), b01(ok))
+						fmt.Fprintf(c.w, "hdl %s %s %s\n", bmx.HexS(prop), bmx.HexS(v), ok)
 					}
+				}
+			}
+		}
+		// shorthand values with exactly n components, in sequence (state carried between calls)
+		for _, prop := range []string{"margin", "border", "font", "transition", "background", "grid", "padding", "outline"} {
+			h := css.GetDefaultHandler(prop)
+			for _, n := range []int{1, 15, 16, 17, 18, 20, 22, 23, 31, 32, 33, 40, 41, 63, 64, 65} {
+				for _, tok := range []string{"1px", "auto", "red"} {
+					v := strings.TrimSpace(strings.Repeat(tok+" ", n))
+					fmt.Fprintf(c.w, "hdl %s %s %s\n", bmx.HexS(prop), bmx.HexS(v), safeHandler(h, v))
 				}
 			}
 		}
